@@ -8,13 +8,16 @@
 From ZC Require Import Model.Prune Proof.Prune.
 Open Scope Z_scope.
 
-(* After any history of finalized blocks and pruneClientState calls, the whole state of every
-   finalized block within prune_below_count rounds of the latest finalized block is in the node
-   DB (full iteration succeeds). *)
+(* After any history of finalized blocks, pruneClientState calls and roll backs of the LFB to a
+   common ancestor (after which rounds are finalized again with other blocks: the dead-node record
+   of a round is replaced at every finalize of that round), the whole state of every block of the
+   finalized chain that is not below a pruned version is in the node DB (full iteration succeeds).
+   By the next theorem every pruned version was at least prune_below_count rounds behind the LFB
+   of its time. *)
 Theorem C27_prune_safe :
   forall count lfb0 ops, 0 <= count -> pr_ops_ok count (pr_init lfb0) ops = true ->
     let s := pr_run count (pr_init lfb0) ops in
-    forall b, In b (ps_blocks s) -> ps_lfb s - count <= pb_round b -> pr_readable s b = true.
+    forall b, In b (ps_blocks s) -> ps_pruned s <= pb_round b -> pr_readable s b = true.
 Proof. exact pr_prune_safe. Qed.
 Print Assumptions C27_prune_safe.
 
@@ -57,6 +60,18 @@ Example C27_example :
   pr_version (pr_run 3 (pr_init 96) (firstn 8 ops)) 3 = Some 100 /\
   ps_db s = [(101, 4); (100, 3); (98, 2)] /\
   map (pr_readable s) (ps_blocks s) = [true; true; true; true; true; true; true; false] /\
+  (* a fork: X_98 deletes (97,1); roll back to 97; Y_98 changes nothing and REPLACES the record of
+     round 98 by an empty one; pruning above 98 later keeps (97,1), which Y's chain still needs *)
+  (let ops2 := [OpBlock 97 [1] [] [(97, 1)];
+                OpBlock 98 [2] [(97, 1)] [(98, 2)];
+                OpRollback 97;
+                OpBlock 98 [] [] [(97, 1)];
+                OpBlock 99 [] [] [(97, 1)]; OpBlock 100 [] [] [(97, 1)]; OpBlock 101 [] [] [(97, 1)];
+                OpBlock 102 [] [] [(97, 1)]; OpBlock 103 [] [] [(97, 1)]; OpBlock 104 [] [] [(97, 1)];
+                OpPrune] in
+   let s2 := pr_run 3 (pr_init 96) ops2 in
+   pr_ops_ok 3 (pr_init 96) ops2 = true /\ ps_pruned s2 = 100 /\
+   forallb (pr_readable s2) (ps_blocks s2) = true) /\
   cc_deletes (cc_run [McDel (5, 1); McAdd None (9, 7); McDel (9, 7); McAdd None (9, 7)]) = [(5, 1)] /\
   map fst (cc_changes (cc_run [McDel (5, 1); McAdd None (9, 7); McDel (9, 7); McAdd None (9, 7)])) = [(9, 7)].
 Proof. vm_compute. repeat split; reflexivity. Qed.
